@@ -49,6 +49,9 @@ TEXTS = [
     "def broken(:\n",
     "import pq.n\nv = pq.n\nw = pq\n",
     "from pq import n\nk = n\n",
+    "import pk.deep.leaf\nlf = pk.deep.leaf.f1\nlg = pk.deep.leaf\n",
+    "import os\n_hidden = 1\n",
+    "",
 ]
 NAMES = ["a", "b", "c", "d", "e"]
 
@@ -57,7 +60,9 @@ NAMES = ["a", "b", "c", "d", "e"]
 def cases(draw):
     tree = {"a.py": TEXTS[0], "b.py": TEXTS[3], "c.py": TEXTS[4], "pk/": None, "pk/__init__.py": "", "pk/m.py": TEXTS[2], "spare.txt": TEXTS[0],
             # a second package, imported by e.py: files move between two packages that are both cached
-            "pq/": None, "pq/__init__.py": "", "pq/n.py": TEXTS[1], "e.py": TEXTS[12]}
+            "pq/": None, "pq/__init__.py": "", "pq/n.py": TEXTS[1], "e.py": TEXTS[12],
+            # a package nested two levels deep, reached through the dotted chain pk.deep.leaf
+            "pk/deep/": None, "pk/deep/__init__.py": "", "pk/deep/leaf.py": "def f1():\n    return 1\n", "g.py": TEXTS[14]}
     if draw(st.booleans()):
         tree["d.py"] = draw(st.sampled_from(TEXTS[:11]))
     n = draw(st.integers(6, 16))
